@@ -16,7 +16,7 @@ ID = "C18"
 LEVEL = "exploration"
 TECHNIQUE = "ThreadSanitizer on concurrent compile()/VM runs with seeded jitter + byte-equality of full-result digests against per-input baselines from fresh processes (sequential histories, ASan and plain builds must agree)"
 FLAVOURS = [("tsan", "generated", ("mt_drv",)), ("asan", "generated", ("mt_drv",)), ("plain", "generated", ("mt_drv",))]
-RULE = ("49 inputs (accepted, erroneous, macro-heavy, multi-file, with positions inside the standard-macro file in errors and temporaries); digest = every field of the CodegenResult (code field-wise, stack maps, both breakpoint "
+RULE = ("51 inputs (accepted, erroneous, macro-heavy, multi-file, with positions inside the standard-macro file in errors and temporaries); digest = every field of the CodegenResult (code field-wise, stack maps, both breakpoint "
         "tables, messages, requests) and of a bounded execution (instruction count, final variables, location); baselines: each input alone in a fresh "
         "process (ASan build and plain build must agree); sequential: random call histories of 200 calls in one process; concurrent: 8-16 threads x "
         "100-400 calls with seeded 0-200us jitter under ThreadSanitizer (any report is a violation) and under ASan; every call's digest must equal its "
@@ -71,6 +71,10 @@ def inputs(seed):
     ins.append(({"main": "y := 3 ;\nWHILE y - 1 != 0 DO\ny := 0\nEND ;\nGOTO y + 2"}, "main"))
     ins.append(({"main": "x := 5 ;\ny := 7 ;\nSAVE x ;\nSAVE y", "__standards__": "\n\nDEFINE SAVE <ID> AS #0 := $0 ; $0 := #0 ; #1 := #0 END DEFINE\n"}, "main"))
     ins.append(({"main": 'x := 5 ;\ninclude "lib"\nKEEP x', "lib": "\n\n\nDEFINE KEEP <ID> AS #3 := $0 ; $0 := #3 END DEFINE\ny := 1 ;", "__standards__": "// nothing\n"}, "main"))
+    # a file with a long name (heap-allocated key) that ends in a bare include directive, as main file and as included file
+    long_ = "/courses/loop_course/exercise_sheet_03/helper_definitions.theo"
+    ins.append(({long_: "x := 1 ;\ny := 2\ninclude"}, long_))
+    ins.append(({"main": 'a := 1 ;\ninclude "%s"\nb := 2' % long_, long_: "c := 3 ;\nInclude  // nothing follows\n"}, "main"))
     return ins
 
 
